@@ -124,4 +124,13 @@ META["C07"] = dict(
         "address of the host, the requested port).",
    technique="TLA+ spec (Dest.tla cache history machine, DestCodec) + TLC exhaustive MC + recorded resolver/decoder/end-to-end traces validated by TLC",
    design_ref="DESIGN.md 3/C07")
+META["C16"] = dict(
+   text="Socks5.tla transcribes the REQUIRED behaviour of the front-end as a reference function (Expect / Accept) over an abstract "
+        "input alphabet; TLC enumerates every relevant case (1548), checks the reference is total, and prints each case; each case "
+        "is concretised (random concrete bytes of its class) and sent to the real start_socks5_server in front of the real Client "
+        "and server with accepting (IPv4 and IPv6) and refusing loopback targets, in three segmentations. The observation (method "
+        "reply, request reply, closed, what the server dialled - from the cfg-guarded dial hook -, echo through the tunnel) is "
+        "judged by Accept in Trace_Socks5.tla; a tunnel opened before each batch must still work afterwards.",
+   technique="TLA+ reference function (Socks5.tla) + TLC enumeration of the whole abstract case space, one real connection per case + TLC trace validation",
+   design_ref="DESIGN.md 3/C16")
 NOT_YET = "check not built yet in this round (planned: DESIGN.md section 3); not claimed"
